@@ -32,6 +32,7 @@ var credConfigs = [][][2]string{
 	nil,
 	{{"alice", "wonderland"}},
 	{{"alice", "wonderland"}, {"bob", ""}, {strings.Repeat("u", 255), strings.Repeat("p", 255)}},
+	{{"alice", "wonderland"}, {"bob", "builder"}, {"carol", "wonderland2"}, {"dave", "d"}},
 }
 
 // subVariants: what the application answers when username/password is selected.
@@ -50,6 +51,21 @@ func subVariants(creds [][2]string) []spec.AuthCase {
 	}
 	if len(creds) > 2 {
 		vs = append(vs, spec.AuthCase{SubVer: 1, User: creds[2][0], Pass: creds[2][1]}, spec.AuthCase{SubVer: 1, User: creds[1][0], Pass: creds[1][1]})
+	}
+	// one configured user's name with another configured user's password
+	for i := range creds {
+		for j := range creds {
+			if i != j && creds[i][1] != creds[j][1] {
+				vs = append(vs, spec.AuthCase{SubVer: 1, User: creds[i][0], Pass: creds[j][1]})
+			}
+		}
+	}
+	// a configured password under an unknown name, a configured name with a prefix of its password
+	for i := range creds {
+		vs = append(vs, spec.AuthCase{SubVer: 1, User: "mallory", Pass: creds[i][1]})
+		if len(creds[i][1]) > 1 {
+			vs = append(vs, spec.AuthCase{SubVer: 1, User: creds[i][0], Pass: creds[i][1][:len(creds[i][1])-1]})
+		}
 	}
 	return vs
 }
@@ -89,7 +105,7 @@ func c11Enumerate(bin string, master uint64, tier string) ([]*spec.RunSpec, []st
 				if has02 {
 					nv = len(vars)
 					if tier != "thorough" {
-						nv = 2
+						nv = 3
 					}
 				}
 				for v := 0; v < nv; v++ {
